@@ -143,7 +143,7 @@ def algo_cfgs(tier, base_id=300000, algos=None, n=100):
                 if algo in ("POO", "GPO"):
                     prm["base"] = rnd.choice(["T_HOO", "HCT", "VHCT"])
                 cfgs.append({"id": i, "algo": algo, "kind": kind, "K": K, "D": D, "box": box, "n": n, "T": n, "prm": prm, "pattern": rnd.choice(["noisy", "neg", "tied", "const", "peak"]), "seed": rnd.randrange(1 << 30),
-                             "alias_dom": D >= 2 and all(b == box[0] for b in box)})
+                             "alias_dom": D >= 2 and all(b == box[0] for b in box), "preq": algo == "VROOM" and i % 2 == 0})
     return cfgs
 
 
